@@ -446,6 +446,9 @@ async fn proxy_tcp_connection_data_forwarding(
             );
         }
 
+        // The peer has finished sending (or this direction failed): pass the end of data on to the target
+        let _ = outbound_write.shutdown().await;
+
         tracing::debug!(
             "[Proxy-Task1] Task completed for stream {} after {} iterations",
             stream_id,
@@ -511,6 +514,9 @@ async fn proxy_tcp_connection_data_forwarding(
                 iteration
             );
         }
+
+        // The target has finished sending (or this direction failed): tell the peer, after the data
+        stream_for_write.send_fin();
 
         tracing::debug!(
             "[Proxy-Task2] Task completed for stream {} after {} iterations",
